@@ -236,7 +236,7 @@ def gen_c07(tier, seed):
                 combos.append((tr + tuple(r.choice(TOS) for _ in range(3)), gi * 3 + rep))
         while len(combos) < 6000:
             # the random part also uses other out-of-range action values
-            combos.append((tuple(r.choice(ACTS[:4] * 4 + [7, -1, 4, 2147483647]) for _ in range(3)) + tuple(r.choice(TOS) for _ in range(3)),
+            combos.append((tuple(r.choice(ACTS[:4] * 4 + [7, -1, 4, 2147483647]) for _ in range(3)) + tuple(r.choice(TOS + TOS + [1, 2147483647]) for _ in range(3)),
                            len(combos)))
     for g, idx in combos:
         r = rng_for(seed, "c07", idx)
